@@ -443,6 +443,20 @@ pub fn generate(ctx: &mut Ctx) {
             ctx.case("selfref", &format!("pat {} {} {}", h(p), show_dict(&d), show_loc(&l)));
         }
         ctx.case("selfref", &format!("dis {} {} -", show_dict(&d), show_loc(&l)));
+        // the same record without `dis`: the display comes from `disMacro`, whose pattern names `disMacro` itself and
+        // the other display tags (each is a tag of the record like any other: its text is substituted, once)
+        d.remove("dis");
+        for (k, v) in [("disKey", "k"), ("name", "n1"), ("def", "^d"), ("tag", "t1")] {
+            d.insert(k.into(), Value::make_str(v));
+        }
+        for p in [
+            "$disMacro", "${disMacro}", "$navName [$disMacro]", "$disMacro$disMacro", "<${disMacro}> $a", "$disKey", "${disKey} $name", "$def $tag",
+            "$name$tag${def}", "$dis", "${dis} $disMacro", "$id",
+        ] {
+            d.insert("disMacro".into(), Value::make_str(p));
+            ctx.case("selfref", &format!("dis {} {} -", show_dict(&d), show_loc(&l)));
+            ctx.case("selfref", &format!("pat {} {} {}", h(p), show_dict(&d), show_loc(&l)));
+        }
     }
     // 1. all 2^8 subsets of the display tags x value kinds
     let variants = ctx.n(8, 48);
